@@ -96,13 +96,13 @@ def gen_config(rng, profile):
 def _weights(cfg):
     if cfg["profile"] == "C18":
         w = {
-            "new_coords": 4, "new_shell": 2, "ctor": 1, "new_container": 2, "write_file": 14, "parse": 16,
+            "new_coords": 4, "new_shell": 2, "copy_shell": 0, "ctor": 1, "new_container": 2, "write_file": 14, "parse": 16,
             "make_contr": 18, "new_mole": 5, "from_pyscf": 8, "new_iodata": 1, "from_iodata": 1, "update": 3, "scribble": 2,
             "query": 10, "new_instance": 0, "inst_call": 0,
         }
     else:
         w = {
-            "new_coords": 6, "new_shell": 8, "ctor": 3, "new_container": 6, "write_file": 3, "parse": 3,
+            "new_coords": 6, "new_shell": 8, "copy_shell": 2, "ctor": 3, "new_container": 6, "write_file": 3, "parse": 3,
             "make_contr": 7, "new_mole": 2, "from_pyscf": 3, "new_iodata": 2, "from_iodata": 3, "update": 9, "scribble": 4,
             "query": 52, "new_instance": 2, "inst_call": 5,
         }
@@ -340,6 +340,10 @@ def g_ctor(rng, cfg):
     return op
 
 
+def g_copy_shell(rng, cfg):
+    return {"op": "copy_shell", "sd": rng.randrange(D), "deep": rng.random() < 0.3}
+
+
 def g_new_container(rng, cfg):
     n = rng.choice([1, 1, 2, 2, 3, 4])
     if cfg.get("p_big") and rng.random() < 0.3:
@@ -370,6 +374,9 @@ def g_write_file(rng, cfg, new=None):
         "pathd": rng.randrange(D),
         "new": (rng.random() < 0.5) if new is None else new,
         "spec": spec,
+        # an overwrite may instead be a same-length revision of the stored file whose modification time is not
+        # advanced (coarse time stamps, `cp -p`): what a cache keyed on (path, mtime, size) cannot see
+        "tweak": rng.randrange(D) if rng.random() < 0.3 else None,
     }
 
 
@@ -463,7 +470,8 @@ def g_new_mole(rng, cfg):
     atoms = [[rng.choice(syms), _xyz(rng, cfg["coord_scale"])] for _ in range(n)]
     return {"op": "new_mole", "cart": rng.random() < 0.5, "atoms": atoms, "basis": basis,
             "coord_form": rng.choice(["list", "list", "tuple", "array"]),
-            "row_form": rng.choice(["list", "list", "list", "tuple"])}
+            "row_form": rng.choice(["list", "list", "list", "tuple"]),
+            "unit": rng.choice(["angstrom", "angstrom", "Bohr", "ANG", "B", "AU", "Angstrom"])}
 
 
 def g_from_pyscf(rng, cfg, keep=None):
@@ -638,6 +646,7 @@ GEN = {
     "new_coords": g_new_coords,
     "new_shell": g_new_shell,
     "ctor": g_ctor,
+    "copy_shell": g_copy_shell,
     "new_container": g_new_container,
     "write_file": g_write_file,
     "parse": g_parse,
